@@ -15,12 +15,14 @@
 //!              the connection instead of answering
 //!     resp   : R<rows>:<state> | V (RESULT/Void) | X (READY frame)
 //!              rows = '-' | hex(.hex)*   state = N (no more pages) | '-' (empty) | hexbytes
+//!   cons st<state> (kind P): not a pager -- one page through query_single_page / execute_single_page
+//!          resumed with that caller-supplied paging state; observation `p<rows>:<next state>` | `e<code>`
 //!   policy x : scripted retry policy (decision carried in the error message);
 //!          di/dn : DefaultRetryPolicy, statement idempotent / not (the generator only emits
 //!          faults whose decision under that policy is the one written in the script)
 //! observation : <items> <keys>
 //!   items : '-' | i(,i)*  i = r<hex> | e<hex> | $ (stream ended);  f<hex> = constructor error
-//!   keys  : 'none' | k(,k)*  k = <pages served before, hex>:<paging state N|-|hex>
+//!   keys  : 'none' | k(,k)*  k = <pages served before, hex>:<paging state N|-|hex>:<mock node that received it>
 use futures::StreamExt;
 use scylla::client::session::Session;
 use scylla::client::session_builder::SessionBuilder;
@@ -66,6 +68,9 @@ enum Cons {
     /// every poll of next() that returns Pending is a cancelled future (cancel safety)
     Jitter,
     Drop(usize),
+    /// not a pager: one page through query_single_page / execute_single_page with this
+    /// caller-supplied paging state
+    Single(Option<Vec<u8>>),
 }
 #[derive(Clone, Debug)]
 struct Case {
@@ -91,6 +96,7 @@ impl Case {
             Cons::Full => "full".to_string(),
             Cons::Slow(ms) => format!("slow{:x}", ms),
             Cons::Jitter => "jit".to_string(),
+            Cons::Single(st) => format!("st{}", state_str(st)),
             Cons::Drop(n) => format!("drop{:x}", n),
         };
         let pages: Vec<String> = self
@@ -133,6 +139,14 @@ impl Case {
             Cons::Full
         } else if f[3] == "jit" {
             Cons::Jitter
+        } else if let Some(st) = f[3].strip_prefix("st") {
+            if st == "N" {
+                Cons::Single(None)
+            } else if st == "-" {
+                Cons::Single(Some(vec![]))
+            } else {
+                Cons::Single(Some((0..st.len() / 2).map(|i| u8::from_str_radix(&st[2 * i..2 * i + 2], 16).ok()).collect::<Option<Vec<u8>>>()?))
+            }
         } else if let Some(ms) = f[3].strip_prefix("slow") {
             Cons::Slow(u64::from_str_radix(ms, 16).ok()?)
         } else if let Some(n) = f[3].strip_prefix("drop") {
@@ -332,7 +346,7 @@ fn actions_for(env: &Env, c: &Case) -> Vec<Action> {
 }
 
 /// (pages served before, paging state) of every QUERY/EXECUTE of the statement, in arrival order
-fn keys_from_trace(trace: &[TraceEvent], text: &str, id: &[u8]) -> Vec<(usize, Option<Vec<u8>>)> {
+fn keys_from_trace(trace: &[TraceEvent], text: &str, id: &[u8]) -> Vec<(usize, Option<Vec<u8>>, usize)> {
     let mut keys = Vec::new();
     let mut served = 0usize;
     // (conn, stream) of our requests that still wait for their reply
@@ -342,7 +356,7 @@ fn keys_from_trace(trace: &[TraceEvent], text: &str, id: &[u8]) -> Vec<(usize, O
             Ev::In { opcode, body, stream, .. } if *opcode == op::QUERY => {
                 if let Ok(q) = wire::decode_query(body) {
                     if q.text == text {
-                        keys.push((served, q.params.paging_state.clone()));
+                        keys.push((served, q.params.paging_state.clone(), e.node));
                         pending.push((e.conn_id, *stream));
                     }
                 }
@@ -350,7 +364,7 @@ fn keys_from_trace(trace: &[TraceEvent], text: &str, id: &[u8]) -> Vec<(usize, O
             Ev::In { opcode, body, stream, .. } if *opcode == op::EXECUTE => {
                 if let Ok(x) = wire::decode_execute(body, false) {
                     if x.id == id {
-                        keys.push((served, x.params.paging_state.clone()));
+                        keys.push((served, x.params.paging_state.clone(), e.node));
                         pending.push((e.conn_id, *stream));
                     }
                 }
@@ -370,11 +384,11 @@ fn keys_from_trace(trace: &[TraceEvent], text: &str, id: &[u8]) -> Vec<(usize, O
     keys
 }
 
-fn fmt_keys(keys: &[(usize, Option<Vec<u8>>)]) -> String {
+fn fmt_keys(keys: &[(usize, Option<Vec<u8>>, usize)]) -> String {
     if keys.is_empty() {
         return "none".into();
     }
-    keys.iter().map(|(p, s)| format!("{:x}:{}", p, state_str(s))).collect::<Vec<_>>().join(",")
+    keys.iter().map(|(p, s, n)| format!("{:x}:{}:{:x}", p, state_str(s), n)).collect::<Vec<_>>().join(",")
 }
 
 async fn run_case(env: &mut Env, c: &Case) -> String {
@@ -398,6 +412,58 @@ async fn run_case(env: &mut Env, c: &Case) -> String {
     let retry: Arc<dyn RetryPolicy> = if c.policy == "x" { Arc::new(ScriptedPolicy) } else { Arc::new(DefaultRetryPolicy::new()) };
     let idem = c.policy != "dn";
 
+    if let Cons::Single(st) = &c.cons {
+        use scylla::errors::ExecutionError;
+        use scylla::response::PagingState;
+        let ps = match st {
+            None => PagingState::start(),
+            Some(b) => PagingState::new_from_raw_bytes(b.clone()),
+        };
+        let res = if c.api == 'q' {
+            let mut stm = Statement::new(text.clone());
+            stm.set_page_size(5);
+            stm.set_retry_policy(Some(retry));
+            stm.set_is_idempotent(idem);
+            env.session.query_single_page(stm, (), ps).await
+        } else {
+            let mut stm = Statement::new(text.clone());
+            stm.set_page_size(5);
+            match env.session.prepare(stm).await {
+                Ok(mut p) => {
+                    p.set_retry_policy(Some(retry));
+                    p.set_is_idempotent(idem);
+                    env.session.execute_single_page(&p, (uniq as i32,), ps).await
+                }
+                Err(e) => return format!("error prepare-failed:{:?}", e).replace(' ', "_"),
+            }
+        };
+        let out = match res {
+            Ok((qr, psr)) => {
+                let next = match psr.into_paging_control_flow() {
+                    std::ops::ControlFlow::Continue(p) => p.as_bytes_slice().map(|b| b.to_vec()),
+                    std::ops::ControlFlow::Break(()) => None,
+                };
+                match qr.into_rows_result() {
+                    Ok(rr) => {
+                        let rows: Vec<String> = match rr.rows::<(i32,)>() {
+                            Ok(it) => it.map(|r| r.map(|(v,)| format!("{:x}", v as u32)).unwrap_or_else(|_| "?".into())).collect(),
+                            Err(_) => vec!["?".into()],
+                        };
+                        format!("p{}:{}", if rows.is_empty() { "-".to_string() } else { rows.join(".") }, state_str(&next))
+                    }
+                    Err(_) => "pv".to_string(),
+                }
+            }
+            Err(ExecutionError::LastAttemptError(a)) => format!("e{:x}", request_error_code(&RequestError::LastAttemptError(a))),
+            Err(ExecutionError::RequestTimeout(_)) => format!("e{:x}", E_TIMEOUT),
+            Err(ExecutionError::EmptyPlan) => format!("e{:x}", E_EMPTY_PLAN),
+            Err(ExecutionError::ConnectionPoolError(_)) => format!("e{:x}", E_POOL),
+            Err(_) => format!("e{:x}", E_OTHER),
+        };
+        let trace = env.cluster.drain_trace();
+        let keys = keys_from_trace(&trace, &text, &id);
+        return format!("{} {}", out, fmt_keys(&keys));
+    }
     let mut items: Vec<String> = Vec::new();
     let ctor_err = |e: &PagerExecutionError| match e {
         PagerExecutionError::NextPageError(e) => format!("f{:x}", next_page_error_code(e)),
@@ -863,6 +929,42 @@ fn unprepared_cases(r: &mut Rng, n: usize) -> Vec<Case> {
         .collect()
 }
 
+/// one page resumed with a paging state the caller kept (query_single_page / execute_single_page)
+fn single_cases(r: &mut Rng, n: usize) -> Vec<Case> {
+    (0..n)
+        .map(|i| {
+            let nodes = r.range(1, 3) as usize;
+            let st = match r.below(5) {
+                0 => None,
+                _ => Some(gen_state(r)),
+            };
+            let mut fs = Vec::new();
+            let mut adv = 0;
+            for _ in 0..r.below(3) {
+                if r.bool() {
+                    fs.push(Fault::Err(*r.pick(&[0x1001u32, 0x1200, 0x1100]), 's'));
+                } else if adv + 1 < nodes {
+                    adv += 1;
+                    fs.push(Fault::Err(*r.pick(&[0x1002u32, 0x1000, 0x0000]), 'n'));
+                }
+            }
+            match r.below(6) {
+                0 => fs.push(Fault::Err(*r.pick(&[0x2200u32, 0x2000, 0x1001]), 'd')),
+                1 => {
+                    for _ in 0..nodes {
+                        fs.push(Fault::Err(0x1002, 'n'));
+                    }
+                }
+                _ => {}
+            }
+            let base = 0xd000u32 + (i as u32) * 16;
+            let rows: Vec<u32> = (0..r.below(5)).map(|k| base + k as u32).collect();
+            let next = if r.bool() { Some(gen_state(r)) } else { None };
+            Case { kind: 'P', mode: 's', api: if r.bool() { 'q' } else { 'e' }, cons: Cons::Single(st), nodes, policy: "x".into(), script: vec![(fs, Resp::Rows(rows, next))] }
+        })
+        .collect()
+}
+
 async fn run_group(nodes: usize, cases: Vec<(usize, Case)>) -> Vec<(usize, String, String)> {
     let mut env = make_env(nodes).await;
     let mut out = Vec::new();
@@ -902,6 +1004,7 @@ fn main() {
         }
         cases.extend(slow_error_cases(&mut r, if thorough { 80 } else { 16 }));
         cases.extend(unprepared_cases(&mut r, if thorough { 80 } else { 16 }));
+        cases.extend(single_cases(&mut r, if thorough { 200 } else { 30 }));
         cases.extend(timeout_cases(&mut r, if thorough { 12 } else { 4 }));
     }
     let all_lines: Vec<String> = cases.iter().map(|c| c.line()).collect();
